@@ -1050,6 +1050,16 @@ def split_tuple_lets(n):
         for st in n2.get("stmts", []):
             pat = st.get("pat", {}) if st.get("k") == "let" else {}
             init = strip(st["init"]) if st.get("k") == "let" and st.get("init") is not None else {}
+            # `let (a, b) = { s1; s2; (x, y) }` (what reading a helper in place leaves): the statements come first
+            hoisted = []
+            blk = st.get("init") if st.get("k") == "let" else None
+            while pat.get("k") == "tuple" and isinstance(blk, dict) and blk.get("k") == "block" and blk.get("expr") is not None and \
+                    not any(x.get("k") == "ret" and x.get("inl") == blk.get("inlined") and blk.get("inlined") for x in walk(blk)):
+                hoisted += list(blk.get("stmts", []))
+                blk = blk["expr"]
+            if hoisted and isinstance(blk, dict) and strip(blk).get("k") == "tup":
+                out += hoisted
+                init = strip(blk)
             if pat.get("k") == "tuple" and init.get("k") == "tup" and len(pat["pats"]) == len(init.get("es", [])) and all(p.get("k") in ("bind", "wild") for p in pat["pats"]):
                 for p, e in zip(pat["pats"], init["es"]):
                     if p.get("k") == "bind":
@@ -1062,12 +1072,58 @@ def split_tuple_lets(n):
     return n2
 
 
+def untry_inlined(n):
+    """copy of n in which `helper(..)?`, with the helper read in place and ending in `Ok(v)`, is the helper's statements
+    followed by v: the helper's own `?` and `return Err(..)` leave the enclosing function just as the outer `?` would have
+    made them do (the error value passes through From either way), and its success value is what the `?` unwraps"""
+    if isinstance(n, list):
+        return [untry_inlined(x) for x in n]
+    if not isinstance(n, dict):
+        return n
+    n2 = {k: untry_inlined(v) for k, v in n.items()}
+    if not is_try(n2):
+        return n2
+    sc = n2["scrut"]
+    inner = sc["args"][0] if sc.get("k") == "call" and sc.get("args") else None
+    if not (isinstance(inner, dict) and inner.get("k") == "block" and inner.get("inlined")):
+        return n2
+    # the helper body is the block's expression (itself a block, as a rule)
+    body = inner.get("expr")
+    stmts = list(inner.get("stmts", []))
+    while isinstance(body, dict) and body.get("k") == "block" and body.get("expr") is not None:
+        stmts += list(body.get("stmts", []))
+        body = body["expr"]
+    tail = strip(body) if isinstance(body, dict) else {}
+    if not (tail.get("k") == "call" and last(tail.get("ctor") or "") == "Ok" and len(tail.get("args", [])) == 1):
+        return n2
+    tag = inner["inlined"]
+
+    def retarget(x):
+        # an explicit `return e` of the helper: returns e from the enclosing function (only Err(..) values qualify)
+        if isinstance(x, list):
+            return [retarget(y) for y in x]
+        if not isinstance(x, dict):
+            return x
+        y = {k: retarget(v) for k, v in x.items()}
+        if y.get("k") == "ret" and y.get("inl") == tag:
+            y.pop("inl", None)
+        return y
+    rets = [x for st in stmts for x in walk(st) if x.get("k") == "ret" and x.get("inl") == tag]
+    for r in rets:
+        e = strip(r.get("e") or {})
+        is_err = e.get("k") == "call" and last(e.get("ctor") or "") == "Err"
+        is_prop = e.get("k") == "call" and last(e.get("callee") or "") == "from_residual"
+        if not (is_err or is_prop):
+            return n2
+    return {"k": "block", "stmts": retarget(stmts), "expr": tail["args"][0], "ty": n2.get("ty"), "line": n2.get("line")}
+
+
 def normal(F, node, keep=(), max_size=400):
     """the normal form most data-flow rules read: helpers of the repository inlined (except those named in `keep`), closures
     and function values handed to helpers applied, named single-assignment intermediates substituted, `let (a, b) = (x, y)`
     split"""
     skip = (lambda c: last(c) in keep) if keep else ()
-    return desugar_combinators(beta(unlet(split_tuple_lets(inline_helpers(F, node, max_size=max_size, skip=skip)))))
+    return desugar_combinators(beta(unlet(split_tuple_lets(untry_inlined(inline_helpers(F, node, max_size=max_size, skip=skip))))))
 
 
 def replace_nodes(n, by_id):
